@@ -141,8 +141,96 @@ fn check(ctx: &mut Ctx, f: Fmt, t: &TD, variant: u64, family: &str) {
     }
 }
 
+/// sugar that can only be written as a *string literal* of the inline macros (it contains a
+/// backslash), compiled into the harness: (source, enum value, lexical value folded, documented meaning)
+#[allow(clippy::type_complexity)]
+fn literal_sugar_macros() -> Vec<(&'static str, Box<dyn Fn() -> narsese::enum_narsese::Narsese>, Box<dyn Fn() -> narsese::lexical::Narsese>, &'static str)> {
+    use narsese::enum_nse as e;
+    use narsese::lexical_nse as l;
+    vec![
+        ("\"<S <\\\\> P>\"", Box::new(|| e!("<S <\\> P>")), Box::new(|| l!("<S <\\> P>")), "T<EquivPred(W\"P\",W\"S\")>"),
+        ("r\"<S <\\> P>\"", Box::new(|| e!(r"<S <\> P>")), Box::new(|| l!(r"<S <\> P>")), "T<EquivPred(W\"P\",W\"S\")>"),
+        ("\"(\\\\, a, _, b)\"", Box::new(|| e!("(\\, a, _, b)")), Box::new(|| l!("(\\, a, _, b)")), "T<ImgInt@1(W\"a\",W\"b\")>"),
+        ("r\"(\\, a, b, _)\"", Box::new(|| e!(r"(\, a, b, _)")), Box::new(|| l!(r"(\, a, b, _)")), "T<ImgInt@2(W\"a\",W\"b\")>"),
+        ("\"<S =\\\\> P>.\"", Box::new(|| e!("<S =\\> P>.")), Box::new(|| l!("<S =\\> P>.")), "S<ImplRetro(W\"S\",W\"P\")|.|eternal|[]>"),
+        ("\"<S {-- P>\"", Box::new(|| e!("<S {-- P>")), Box::new(|| l!("<S {-- P>")), "T<Inh(SetExt{W\"S\"},W\"P\")>"),
+        ("\"<S --] P>\"", Box::new(|| e!("<S --] P>")), Box::new(|| l!("<S --] P>")), "T<Inh(W\"S\",SetInt{W\"P\"})>"),
+        ("\"<S {-] P>\"", Box::new(|| e!("<S {-] P>")), Box::new(|| l!("<S {-] P>")), "T<Inh(SetExt{W\"S\"},SetInt{W\"P\"})>"),
+        ("\"(/, a, _x, b)\"", Box::new(|| e!("(/, a, _x, b)")), Box::new(|| l!("(/, a, _x, b)")), "T<ImgExt@1(W\"a\",W\"b\")>"),
+        ("\"(&/, a, +0007, b)\"", Box::new(|| e!("(&/, a, +0007, b)")), Box::new(|| l!("(&/, a, +0007, b)")), "T<Seq(W\"a\",+7,W\"b\")>"),
+    ]
+}
+
 pub fn run(ctx: &mut Ctx) {
     let mut idx = 0usize;
+    // (0) literal macro invocations with sugar (shard 0 only; fixed)
+    if ctx.shard == 0 {
+        use narsese::conversion::inter_type::lexical_fold::TryFoldInto;
+        for (src, ev, lv, want) in literal_sugar_macros() {
+            ctx.report.eval();
+            ctx.report.bump("family.literal-macro-invocations");
+            let a = match crate::guard::observe(|| canon_real_narsese(&ev())) {
+                crate::guard::Obs::Ret(c) => c,
+                crate::guard::Obs::Panic(p) => format!("PANIC({})", p.chars().take(120).collect::<String>()),
+            };
+            let b = match crate::guard::observe(|| lv().try_fold_into(Fmt::Ascii.e()).map(|v: narsese::enum_narsese::Narsese| canon_real_narsese(&v)).map_err(|e| format!("{:?}", e))) {
+                crate::guard::Obs::Ret(Ok(c)) => c,
+                crate::guard::Obs::Ret(Err(e)) => format!("Err({})", e),
+                crate::guard::Obs::Panic(p) => format!("PANIC({})", p.chars().take(120).collect::<String>()),
+            };
+            for (which, got) in [("enum_nse!", a), ("lexical_nse! + fold", b)] {
+                if got != want {
+                    ctx.report.violate(
+                        format!("C10|literal-macro|{}|{}", which, src),
+                        format!("{}({}) = {} (documented meaning {})", which, src, got, want),
+                        J::obj().set("kind", "literal-macro").set("format", "ascii").set("literal", src),
+                    );
+                }
+            }
+        }
+    }
+    // (0b) a very large batch (one worker): 42 000 lines of a 101-term product - 4.2 million terms in one
+    // `parse_multi` call - followed by the sugared spellings, which must still mean what they mean
+    if ctx.shard == 2 % ctx.nshards {
+        let line = format!("(*, {})", (0..100).map(|i| format!("w{}", i % 10)).collect::<Vec<_>>().join(", "));
+        let sugar: Vec<(&str, &str)> = vec![
+            ("<S {-- P>", "T<Inh(SetExt{W\"S\"},W\"P\")>"),
+            ("<S --] P>", "T<Inh(W\"S\",SetInt{W\"P\"})>"),
+            ("<S {-] P>", "T<Inh(SetExt{W\"S\"},SetInt{W\"P\"})>"),
+            ("<S <\\> P>", "T<EquivPred(W\"P\",W\"S\")>"),
+            ("(/, a, _, b)", "T<ImgExt@1(W\"a\",W\"b\")>"),
+            ("+0007", "T<+7>"),
+        ];
+        ctx.report.eval();
+        ctx.report.bump("family.one-batch-of-4.2-million-terms");
+        let r = crate::guard::observe(|| {
+            let n = 42_000usize;
+            let rs = Fmt::Ascii.e().parse_multi((0..n).map(|_| line.as_str()).chain(sugar.iter().map(|(s, _)| *s)));
+            let mut bad = None;
+            for (i, (src, want)) in sugar.iter().enumerate() {
+                let got = match rs.get(n + i) {
+                    Some(Ok(v)) => canon_real_narsese(v),
+                    Some(Err(e)) => format!("Err({})", e.to_string().chars().take(80).collect::<String>()),
+                    None => "nothing".to_string(),
+                };
+                if got != *want {
+                    bad = Some(format!("{:?} after {} lines of 101 terms in the same parse_multi call = {} (documented meaning {})", src, n, got, want));
+                    break;
+                }
+            }
+            if bad.is_none() && !matches!(rs.get(n - 1), Some(Ok(_))) {
+                bad = Some(format!("line {} of the batch does not parse", n - 1));
+            }
+            bad
+        });
+        let why = match r {
+            crate::guard::Obs::Ret(x) => x,
+            crate::guard::Obs::Panic(p) => Some(format!("parse_multi panicked: {}", p)),
+        };
+        if let Some(w) = why {
+            ctx.report.violate("C10|big-batch".into(), w, J::obj().set("kind", "big-batch").set("format", "ascii").set("big_batch", 42_000u64));
+        }
+    }
     // (1) fixed family: every derived copula with every operand shape; images of length 1..6 with the
     // placeholder at every position (and later placeholders as plain components); intervals
     for f in ALL_FMT {
@@ -225,6 +313,10 @@ pub fn run(ctx: &mut Ctx) {
 }
 
 pub fn replay(ctx: &mut Ctx, d: &J) -> Option<()> {
+    if d.get("literal").is_some() || d.get("big_batch").is_some() {
+        // (fixed families, re-run as a whole by the check itself)
+        return Some(());
+    }
     let f = fmt_of(d)?;
     let t = TD::from_json(d.get("term")?)?;
     let variant = d.get("variant")?.as_i128()? as u64;
